@@ -9,8 +9,20 @@ use crate::oracle;
 use crate::rawdb::{self, Dump, KIND_ITEM, KIND_METADATA, KIND_TREE};
 use crate::with_metric;
 
-fn change<D: Distance, ND: Distance>(wtxn: &mut RwTxn, db: rawdb::RawDb, index: u16, dims: usize) -> Result<Result<(), arroy::Error>, String> {
-    guarded(|| Writer::<D>::new(adb::<D>(db), index, dims).prepare_changing_distance::<ND>(wtxn).map(|_| ()))
+fn change<D: Distance, ND: Distance>(
+    wtxn: &mut RwTxn,
+    db: rawdb::RawDb,
+    index: u16,
+    dims: usize,
+    tmpdir: Option<&std::path::Path>,
+) -> Result<Result<Writer<ND>, arroy::Error>, String> {
+    guarded(|| {
+        let mut w = Writer::<D>::new(adb::<D>(db), index, dims);
+        if let Some(t) = tmpdir {
+            w.set_tmpdir(t);
+        }
+        w.prepare_changing_distance::<ND>(wtxn)
+    })
 }
 
 
@@ -37,7 +49,19 @@ pub fn apply_change_metric(
         (m.index, m.metric, m.dims)
     };
     let desc = format!("change-metric(index={index}, {} -> {})", from.short(), to.short());
-    let r = with_metric!(from, D, with_metric!(to, ND, change::<D, ND>(wtxn, db, index, dims)));
+    let tmpdir = e.tmpdir.clone();
+    // the writer arroy hands back is the one the caller goes on with: keep it for the following operations
+    let r: Result<Result<(), arroy::Error>, String> = with_metric!(from, D, with_metric!(to, ND, {
+        match change::<D, ND>(wtxn, db, index, dims, tmpdir.as_deref()) {
+            Ok(Ok(w)) => {
+                e.writers.forget(index);
+                e.writers.put::<ND>(index, to, dims, w);
+                Ok(Ok(()))
+            }
+            Ok(Err(err)) => Ok(Err(err)),
+            Err(p) => Err(p),
+        }
+    }));
     match r {
         Ok(Ok(())) => {}
         Ok(Err(err)) => return vio!(step, "metric-change:error", format!("{desc} failed: {err:?}")),
@@ -69,7 +93,6 @@ pub fn apply_change_metric(
         m.capacity_mixed = false;
     }
     e.prev_forest.remove(&index);
-    e.writers.forget(index);
     let m = model.ix[op_ix].clone();
     // ---- raw view of the index
     let own = rawdb::dump_of_index(&post, index);
